@@ -41,3 +41,36 @@ pub fn c01_short_message_rejected() {
 // `Message::canonical_name` is NOT under contract: both a symbolic-ANCOUNT harness and a fully concrete one
 // (question-only message, ANCOUNT = 0xFFFF) exceed 13-25 min in CBMC (generic record iterators and name comparison).
 // Defect D2 (`ancount() + 1` overflows at 0xFFFF) is demonstrated natively by replay/src/bin/d2_canonical_name_ancount.rs.
+
+/// EDNS client subnet (RFC 7871 6): ClientSubnet::parse on every option payload of at most 24 octets -- no panic (the
+/// fixed address buffers are sliced with a length taken from the prefix-length octet); a value comes back only for
+/// family 1 or 2, a source prefix that fits the family, exactly ceil(prefix / 8) address octets and no bit set beyond
+/// the prefix; what comes back composes to the payload it was read from. Payloads of more than 20 octets are always
+/// refused (at most 16 address octets, then nothing may remain), so the length bound loses nothing.
+#[kani::proof]
+#[kani::unwind(26)]
+pub fn c01_client_subnet_parse_total_bounded() {
+    use domain::base::opt::subnet::ClientSubnet;
+    use domain::base::opt::ComposeOptData;
+    use octseq::array::Array;
+    use octseq::parse::Parser;
+    let buf: [u8; 24] = kani::any();
+    let n: usize = kani::any();
+    kani::assume(n <= 24);
+    let payload = &buf[..n];
+    let mut parser = Parser::from_ref(&payload);
+    let r = ClientSubnet::parse(&mut parser);
+    kani::cover!(r.is_ok());
+    if let Ok(cs) = r {
+        let family = u16::from_be_bytes([buf[0], buf[1]]);
+        let source = buf[2];
+        assert!(n >= 4 && (family == 1 || family == 2));
+        assert!(source as usize <= if family == 1 { 32 } else { 128 });
+        assert!(n - 4 == (source as usize + 7) / 8);
+        assert!(cs.source_prefix_len() == source && cs.scope_prefix_len() == buf[3]);
+        let mut out = Array::<24>::new();
+        assert!(cs.compose_option(&mut out).is_ok());
+        assert!(out.as_ref() == payload);
+        assert!(usize::from(cs.compose_len()) == n);
+    }
+}
